@@ -111,6 +111,19 @@ MUTANTS = [
     ("C14", "height-no-layer-mean", "typhon/physics/atmosphere.py", "    rho_layer = 0.5 * (rho[:-1] + rho[1:])", "    rho_layer = rho[:-1]"),
     ("C14", "height-not-from-zero", "typhon/physics/atmosphere.py", "    return np.hstack([0, z])", "    return np.hstack([z[0], z])"),
     ("C14", "crh-inverted", "typhon/physics/atmosphere.py", "        crh = ivw/ivws", "        crh = ivws/ivw"),
+    ("C08", "no-grid-reversal", "typhon/physics/em.py", "    return perm[::-1, ...], lam_grid[::-1]", "    return perm, lam_grid"),
+    ("C08", "jacobian-f-not-f2", "typhon/physics/em.py", "    perm = perhz * f_grid.reshape(shape)**2 / c", "    perm = perhz * f_grid.reshape(shape) / c"),
+    ("C08", "perwn-divides", "typhon/physics/em.py", "    perwn = perhz * c", "    perwn = perhz / c"),
+    ("C08", "rj-tb-missing-2", "typhon/physics/em.py", "    return np.divide(c**2, (2 * f**2 * k)) * r", "    return np.divide(c**2, (f**2 * k)) * r"),
+    ("C08", "wavelength2wavenumber-c", "typhon/physics/em.py", "def wavelength2wavenumber(wavelength):", "def wavelength2wavenumber(wavelength, _c=constants.speed_of_light):\n    return np.divide(_c, wavelength)\ndef _unused_w2n(wavelength):"),
+    ("C09", "mass-ratio-inverted", "typhon/physics/atmosphere.py", "    return x / (1 - x) * Mw / Md", "    return x / (1 - x) * Md / Mw"),
+    ("C09", "blend-mask-swapped", "typhon/physics/atmosphere.py", "    e_eq[is_ice] = e_eq_ice[is_ice]\n    e_eq[is_water] = e_eq_water[is_water]", "    e_eq[is_ice] = e_eq_water[is_ice]\n    e_eq[is_water] = e_eq_ice[is_water]"),
+    ("C09", "blend-offset", "typhon/physics/atmosphere.py", "            * ((T - constants.triple_point_water + 23) / 23)**2", "            * ((T - constants.triple_point_water - 23) / 23)**2"),
+    ("C09", "ice-threshold-22", "typhon/physics/atmosphere.py", "    is_ice = T < (constants.triple_point_water - 23.)", "    is_ice = T < (constants.triple_point_water - 22.)"),
+    ("C09", "q2x-missing-term", "typhon/physics/atmosphere.py", "    return q / ((1 - q) * Mw / Md + q)", "    return q / ((1 - q) * Mw / Md)"),
+    ("C09", "rh-divides", "typhon/physics/atmosphere.py", "    return RH * e_eq(T) / p", "    return RH * p / e_eq(T)"),
+    ("C09", "lapse-squared-dropped", "typhon/physics/atmosphere.py", "(1 + (Lv**2 * w_saturated) / (Cp * Rv * T**2))", "(1 + (Lv * w_saturated) / (Cp * Rv * T**2))"),
+    ("C09", "zero-temperature-accepted", "typhon/physics/atmosphere.py", "    if np.any(T <= 0):\n        raise ValueError('Temperatures must be larger than 0 Kelvin.')\n\n    # Give the natural log of saturation vapor pressure over ice in Pa", "    if np.any(T < 0):\n        raise ValueError('Temperatures must be larger than 0 Kelvin.')\n\n    # Give the natural log of saturation vapor pressure over ice in Pa"),
 ]
 
 
